@@ -127,7 +127,7 @@ def replay_negative_control(ctx, up, vecs):
     for v in vecs:
         if "expK" in v:
             continue
-        if ctx.prop == "C04" and v["exp"].get("out") == "call" and v["exp"]["val"]["k"] != "null":
+        if ctx.prop == "C04" and v["exp"].get("out") == "call" and "val" in v["exp"] and v["exp"]["val"]["k"] != "null":
             pick = copy.deepcopy(v)
             pick["exp"] = {"out": "reject"}
             break
